@@ -575,4 +575,138 @@ theorem signMany_log_sublist (edVerify : Bytes → Bytes → Bytes → Bool) (ha
   rw [h2, List.append_nil]
   exact h4
 
+/-! ### 6. Web Bundle ID -/
+
+/-- lower-cased base32 character of a 5-bit value -/
+def lc32 (v : Nat) : UInt8 := Http.toLowerByte (b32char v)
+
+theorem ib_lc32_alpha_fin : ∀ v : Fin 32,
+    (97 ≤ lc32 v.val ∧ lc32 v.val ≤ 122) ∨ (50 ≤ lc32 v.val ∧ lc32 v.val ≤ 55) := by
+  decide +kernel
+
+theorem ib_lc32_inj_fin : ∀ v w : Fin 32, lc32 v.val = lc32 w.val → v = w := by
+  decide +kernel
+
+theorem ib_lc32_alpha (v : Nat) (h : v < 32) :
+    (97 ≤ lc32 v ∧ lc32 v ≤ 122) ∨ (50 ≤ lc32 v ∧ lc32 v ≤ 55) := ib_lc32_alpha_fin ⟨v, h⟩
+
+theorem ib_lc32_inj (v w : Nat) (hv : v < 32) (hw : w < 32) (h : lc32 v = lc32 w) : v = w :=
+  congrArg Fin.val (ib_lc32_inj_fin ⟨v, hv⟩ ⟨w, hw⟩ h)
+
+/-- one full 5-byte group gives 8 characters -/
+theorem ib_lower_base32_cons5 (a b c d e : UInt8) (rest : Bytes) :
+    Http.lowerAscii (base32 (a :: b :: c :: d :: e :: rest)) =
+      lc32 (a.toNat / 8) :: lc32 (a.toNat % 8 * 4 + b.toNat / 64) :: lc32 (b.toNat / 2 % 32) ::
+      lc32 (b.toNat % 2 * 16 + c.toNat / 16) :: lc32 (c.toNat % 16 * 2 + d.toNat / 128) ::
+      lc32 (d.toNat / 4 % 32) :: lc32 (d.toNat % 4 * 8 + e.toNat / 32) :: lc32 (e.toNat % 32) ::
+      Http.lowerAscii (base32 rest) := by
+  rw [base32]
+  rfl
+
+/-- on whole 5-byte groups: 8 characters per group, all in [a-z2-7], no `=` padding -/
+theorem ib_lower_base32_groups : ∀ (n : Nat) (l : Bytes), l.length = 5 * n →
+    (Http.lowerAscii (base32 l)).length = 8 * n ∧
+      ∀ ch ∈ Http.lowerAscii (base32 l), (97 ≤ ch ∧ ch ≤ 122) ∨ (50 ≤ ch ∧ ch ≤ 55)
+  | 0, l, h => by
+    have : l = [] := List.eq_nil_of_length_eq_zero (by omega)
+    subst this
+    exact ⟨rfl, by intro ch hch; cases hch⟩
+  | n + 1, l, h => by
+    match l, h with
+    | [], h => simp only [List.length_nil] at h; omega
+    | [_], h => simp only [List.length_cons, List.length_nil] at h; omega
+    | [_, _], h => simp only [List.length_cons, List.length_nil] at h; omega
+    | [_, _, _], h => simp only [List.length_cons, List.length_nil] at h; omega
+    | [_, _, _, _], h => simp only [List.length_cons, List.length_nil] at h; omega
+    | a :: b :: c :: d :: e :: rest, h =>
+      have hr : rest.length = 5 * n := by simp only [List.length_cons] at h; omega
+      obtain ⟨ih1, ih2⟩ := ib_lower_base32_groups n rest hr
+      rw [ib_lower_base32_cons5]
+      have ha := a.toNat_lt; have hb := b.toNat_lt; have hc := c.toNat_lt
+      have hd := d.toNat_lt; have he := e.toNat_lt
+      refine ⟨by simp only [List.length_cons, ih1]; omega, ?_⟩
+      intro ch hch
+      rcases List.mem_cons.mp hch with rfl | hch
+      · exact ib_lc32_alpha _ (by omega)
+      rcases List.mem_cons.mp hch with rfl | hch
+      · exact ib_lc32_alpha _ (by omega)
+      rcases List.mem_cons.mp hch with rfl | hch
+      · exact ib_lc32_alpha _ (by omega)
+      rcases List.mem_cons.mp hch with rfl | hch
+      · exact ib_lc32_alpha _ (by omega)
+      rcases List.mem_cons.mp hch with rfl | hch
+      · exact ib_lc32_alpha _ (by omega)
+      rcases List.mem_cons.mp hch with rfl | hch
+      · exact ib_lc32_alpha _ (by omega)
+      rcases List.mem_cons.mp hch with rfl | hch
+      · exact ib_lc32_alpha _ (by omega)
+      rcases List.mem_cons.mp hch with rfl | hch
+      · exact ib_lc32_alpha _ (by omega)
+      exact ih2 ch hch
+
+/-- lower-cased base32 is injective on whole 5-byte groups (each character determines 5 bits) -/
+theorem ib_lower_base32_inj : ∀ (n : Nat) (l₁ l₂ : Bytes), l₁.length = 5 * n → l₂.length = 5 * n →
+    Http.lowerAscii (base32 l₁) = Http.lowerAscii (base32 l₂) → l₁ = l₂
+  | 0, l₁, l₂, h1, h2, _ => by
+    rw [List.eq_nil_of_length_eq_zero (l := l₁) (by omega), List.eq_nil_of_length_eq_zero (l := l₂) (by omega)]
+  | n + 1, l₁, l₂, h1, h2, heq => by
+    match l₁, h1 with
+    | [], h => simp only [List.length_nil] at h; omega
+    | [_], h => simp only [List.length_cons, List.length_nil] at h; omega
+    | [_, _], h => simp only [List.length_cons, List.length_nil] at h; omega
+    | [_, _, _], h => simp only [List.length_cons, List.length_nil] at h; omega
+    | [_, _, _, _], h => simp only [List.length_cons, List.length_nil] at h; omega
+    | a :: b :: c :: d :: e :: r₁, h1 =>
+      match l₂, h2 with
+      | [], h => simp only [List.length_nil] at h; omega
+      | [_], h => simp only [List.length_cons, List.length_nil] at h; omega
+      | [_, _], h => simp only [List.length_cons, List.length_nil] at h; omega
+      | [_, _, _], h => simp only [List.length_cons, List.length_nil] at h; omega
+      | [_, _, _, _], h => simp only [List.length_cons, List.length_nil] at h; omega
+      | a' :: b' :: c' :: d' :: e' :: r₂, h2 =>
+        have hr1 : r₁.length = 5 * n := by simp only [List.length_cons] at h1; omega
+        have hr2 : r₂.length = 5 * n := by simp only [List.length_cons] at h2; omega
+        rw [ib_lower_base32_cons5, ib_lower_base32_cons5] at heq
+        have ha := a.toNat_lt; have hb := b.toNat_lt; have hc := c.toNat_lt
+        have hd := d.toNat_lt; have he := e.toNat_lt
+        have ha' := a'.toNat_lt; have hb' := b'.toNat_lt; have hc' := c'.toNat_lt
+        have hd' := d'.toNat_lt; have he' := e'.toNat_lt
+        injection heq with q1 heq
+        injection heq with q2 heq
+        injection heq with q3 heq
+        injection heq with q4 heq
+        injection heq with q5 heq
+        injection heq with q6 heq
+        injection heq with q7 heq
+        injection heq with q8 heq
+        have p1 := ib_lc32_inj _ _ (by omega) (by omega) q1
+        have p2 := ib_lc32_inj _ _ (by omega) (by omega) q2
+        have p3 := ib_lc32_inj _ _ (by omega) (by omega) q3
+        have p4 := ib_lc32_inj _ _ (by omega) (by omega) q4
+        have p5 := ib_lc32_inj _ _ (by omega) (by omega) q5
+        have p6 := ib_lc32_inj _ _ (by omega) (by omega) q6
+        have p7 := ib_lc32_inj _ _ (by omega) (by omega) q7
+        have p8 := ib_lc32_inj _ _ (by omega) (by omega) q8
+        have ea : a = a' := UInt8.toNat.inj (by omega)
+        have eb : b = b' := UInt8.toNat.inj (by omega)
+        have ec : c = c' := UInt8.toNat.inj (by omega)
+        have ed : d = d' := UInt8.toNat.inj (by omega)
+        have ee : e = e' := UInt8.toNat.inj (by omega)
+        rw [ea, eb, ec, ed, ee, ib_lower_base32_inj n r₁ r₂ hr1 hr2 heq]
+
+/-- the Web Bundle ID of a 32-byte Ed25519 key: 56 characters of [a-z2-7], no padding -/
+theorem webBundleId_32 (pk : Bytes) (h : pk.length = 32) :
+    (webBundleId pk).length = 56 ∧ ∀ c ∈ webBundleId pk, (97 ≤ c ∧ c ≤ 122) ∨ (50 ≤ c ∧ c ≤ 55) := by
+  unfold webBundleId
+  exact ib_lower_base32_groups 7 (pk ++ [0, 1, 2])
+    (by rw [List.length_append, h]; rfl)
+
+/-- distinct keys have distinct Web Bundle IDs -/
+theorem webBundleId_injective (p q : Bytes) (hp : p.length = 32) (hq : q.length = 32)
+    (h : webBundleId p = webBundleId q) : p = q := by
+  unfold webBundleId at h
+  have := ib_lower_base32_inj 7 (p ++ [0, 1, 2]) (q ++ [0, 1, 2])
+    (by rw [List.length_append, hp]; rfl) (by rw [List.length_append, hq]; rfl) h
+  exact List.append_cancel_right this
+
 end WebPkg.IB
